@@ -489,7 +489,9 @@ fn explore(ctx: &mut Ctx) {
         // k such that k*w sits just below / on / above a word boundary
         let below = 63 / w;
         let on = if 64 % w == 0 { 64 / w } else { 128 / w };
-        let mut inits = vec![IInit::New(w), IInit::WithCapacity(9, w), IInit::WithLen(below.max(1), w, !0), IInit::WithLen(on, w, pattern), IInit::WithLen(64 / w + 1, w, 0)];
+        let mut inits = vec![IInit::New(w), IInit::WithCapacity(9, w), IInit::WithLen(below.max(1), w, !0), IInit::WithLen(on, w, pattern), IInit::WithLen(64 / w + 1, w, 0),
+            // fill values whose only set bits lie above the item width, or everywhere but the lowest bit
+            IInit::WithLen(3, w, if w < 64 { 1u64 << w } else { 1u64 << 63 }), IInit::WithLen(on + 1, w, !1u64)];
         if w == 64 {
             inits.push(IInit::Default);
             inits.push(IInit::FromVecU64(vec![!0, 0, 5]));
